@@ -48,6 +48,9 @@ static const char *errname(int e) {
   case EBUSY: return "EBUSY"; case EPERM: return "EPERM"; case ENOSYS: return "ENOSYS"; case ENOMEM: return "ENOMEM"; case EEXIST: return "EEXIST"; default: return "other"; }
 }
 
+struct prevobj { hwloc_obj_t o; unsigned long long gp; void *ud; };
+static struct prevobj *prev; static unsigned nprev, capprev;
+static int prev_cmp(const void *a, const void *b) { const struct prevobj *x = a, *y = b; return x->o < y->o ? -1 : x->o > y->o; }
 /* after a call: RET line, dump, userdata check */
 static void after(long ret, int err) {
   char tag[32];
@@ -61,9 +64,19 @@ static void after(long ret, int err) {
   int bad = 0; unsigned long long badgp = 0;
   for (unsigned i = 0; i < nobjs; i++)
     if (objs[i]->userdata && objs[i]->userdata != tag_of(objs[i])) { bad = 1; badgp = objs[i]->gp_index; }
+  /* pointer-keyed stability: an object (pointer) that was linked before the call and still is keeps its gp_index and userdata
+   * (no modelled call both frees a linked object and allocates a new one, so a surviving address is the same object) */
+  for (unsigned i = 0; i < nobjs && !bad; i++) {
+    unsigned lo = 0, hi = nprev;
+    while (lo < hi) { unsigned mid = (lo + hi) / 2; if (prev[mid].o < objs[i]) lo = mid + 1; else hi = mid; }
+    if (lo < nprev && prev[lo].o == objs[i] && (prev[lo].gp != objs[i]->gp_index || prev[lo].ud != objs[i]->userdata)) { bad = 2; badgp = prev[lo].gp; }
+  }
   tag_all();
+  if (nobjs > capprev) { capprev = 2 * nobjs; prev = realloc(prev, capprev * sizeof(*prev)); }
+  for (unsigned i = 0; i < nobjs; i++) { prev[i].o = objs[i]; prev[i].gp = objs[i]->gp_index; prev[i].ud = objs[i]->userdata; }
+  nprev = nobjs; qsort(prev, nprev, sizeof(*prev), prev_cmp);
   fprintf(fc, "OK\n");                     /* answer to END: the model must find WF + prediction + stability OK */
-  if (bad) fprintf(fops, "UD bad gp=%llu\n", badgp); else fprintf(fops, "UD ok\n");
+  if (bad) fprintf(fops, "UD bad%s gp=%llu\n", bad == 2 ? "-surviving-pointer" : "", badgp); else fprintf(fops, "UD ok\n");
   fprintf(fc, "UD ok\n");
   fflush(fops); fflush(fc);
 }
@@ -117,7 +130,7 @@ static int load_case(char kind, unsigned long flags, const char *filters, const 
   default: err = -1;
   }
   if (err < 0 || hwloc_topology_load(topo) < 0) goto fail;
-  recollect(); tag_all();
+  nprev = 0; recollect(); tag_all();
   return 0;
 fail:
   hwloc_topology_destroy(topo); topo = NULL; return -1;
